@@ -32,3 +32,12 @@ Definition rcheck (c : rcase) : bool :=
   && img_close30 (harmonics QopsX inject_Z (rc_order c) (rc_odd c) (rc_cn c)) (rc_harm c)
   && img_close30 (Ibeta QopsX (rc_pi c) inject_Z (rc_order c) (rc_odd c) (rc_window c) (rc_r c) (rc_cn c))
                (rc_Ibeta c).
+
+(* which component disagrees (for the report) *)
+Definition rcheck_parts (c : rcase) : list bool :=
+  [list_all2 Nat.eqb (orders (rc_order c) (rc_odd c)) (rc_orders c);
+   list_all2 Nat.eqb (sinpowers (rc_order c) (rc_odd c)) (rc_sinpowers c);
+   img_close (cossin QopsX inject_Z (rc_order c) (rc_odd c) (rc_cn c)) (rc_cossin c);
+   img_close30 (harmonics QopsX inject_Z (rc_order c) (rc_odd c) (rc_cn c)) (rc_harm c);
+   img_close30 (Ibeta QopsX (rc_pi c) inject_Z (rc_order c) (rc_odd c) (rc_window c) (rc_r c) (rc_cn c))
+               (rc_Ibeta c)].
